@@ -7,6 +7,9 @@ package main
 //	   | C <form> <cfg> <kwhex> <op> V    condition
 //	   | Z <form> | Y <form>              zero-valued Stack / Condition
 //	   | A [ V* ]                         []any
+//	   | <EV literal>                     a leaf described as reflect sees it (see equal.go, stream eqpair):
+//	       p<ty>:<hex>:<nan> | t<ty>:<hex> | u<0|1>:<n> | z<ty> | P <ty> E | Q <a|s> <ety> <cap> [ E* ]
+//	       | M <ty> [ (E E)* ] | T <ty> [ (<namehex>:<e|p>:<a|n> E)* ] | f<ty>:<id> | c<ty>:<id> | I | J E
 //
 // <cfg> is a comma-separated list of non-default fields, `-` when empty.
 // <op> is `-` (nil), `c<code>` (ComparisonOperator) or `u<id>:<strhex>:<ctxhex>`.
@@ -55,6 +58,7 @@ type V struct {
 	Xs   []V
 	Kw   string
 	Op   string
+	E    *EVv // T == 'E': a leaf of the reflect universe (equal.go)
 }
 
 func hx(s string) string {
@@ -232,6 +236,8 @@ func (v V) String() string {
 			xs = append(xs, x.String())
 		}
 		return strings.TrimSpace("A [ "+strings.Join(xs, " ")) + " ]"
+	case 'E':
+		return v.E.String()
 	}
 	panic("bad V")
 }
@@ -295,6 +301,9 @@ func parseV(toks []string) (V, []string) {
 			v.Xs = append(v.Xs, x)
 		}
 		return v, rest[1:]
+	case 'p', 't', 'u', 'z', 'P', 'Q', 'M', 'T', 'f', 'c', 'I', 'J':
+		e, rest := parseEV(toks)
+		return V{T: 'E', E: e}, rest
 	}
 	panic("bad value token " + t)
 }
@@ -607,6 +616,8 @@ func Build(v V) any {
 			xs = append(xs, Build(x))
 		}
 		return xs
+	case 'E':
+		return buildEV(v.E).Interface()
 	}
 	panic("bad V")
 }
@@ -619,6 +630,9 @@ func BuildStack(v V) stackage.Stack {
 	applyStackCfg(s, v.Cfg)
 	if v.Cfg.Ppf != 0 {
 		s.SetPushPolicy(pushPolicy(v.Cfg.Ppf))
+	}
+	if v.Cfg.Eqf != 0 {
+		s.SetEqualityPolicy(eqPolicy(v.Cfg.Eqf))
 	}
 	if v.Cfg.Opt&fNNest != 0 {
 		s.SetNoNesting(true)
@@ -657,6 +671,9 @@ func BuildCond(v V) stackage.Condition {
 	}
 	if cf.Opt&fNNest != 0 {
 		c.SetNoNesting(true)
+	}
+	if cf.Eqf != 0 {
+		c.SetEqualityPolicy(eqPolicy(cf.Eqf))
 	}
 	if cf.Err != 0 {
 		c.SetErr(errOf(cf.Err))
